@@ -1,10 +1,10 @@
 SPECIFICATION GSpec
 CONSTANTS Devs = @DEVS@
           Follow = @FOLLOW@
-          InitSizes = {0, 4}
+          InitSizes = {0, 3}
           Roots = {"pb", "tree"}
-          WLens = {0, 1, 3}
-          Ks = {0, 2, 5}
+          WLens = {0, 2}
+          Ks = {0, 3}
           Slack = 1
           D = 2
           E = 2
